@@ -397,13 +397,14 @@ impl<'c> FW<'c> {
                 });
                 self.macro_outcome(MACRO_NEW, what, s, false, &exp, r, *exit, "map_")?;
             }
-            FromFnNew { n, exit } | FromFnOld { n, exit } => {
+            FromFnNew { n, exit, typed } | FromFnOld { n, exit, typed } => {
                 let old = matches!(op, FromFnOld { .. });
+                let typed = *typed;
                 let ex = *exit;
                 let n = *n;
                 let r: Result<Option<AnyArr>, String> = guard(move || {
                     macro_rules! run {
-                        ($($n:literal $V:ident),*) => { match n { $( $n => match if old { from_fn_old::<$n>(ex) } else { from_fn_new::<$n>(ex) } { MapOut::Arr(r) => Some(AnyArr::$V(r)), MapOut::Returned => None }, )* _ => None } };
+                        ($($n:literal $V:ident),*) => { match n { $( $n => match if old { from_fn_old::<$n>(ex, typed) } else { from_fn_new::<$n>(ex, typed) } { MapOut::Arr(r) => Some(AnyArr::$V(r)), MapOut::Returned => None }, )* _ => None } };
                     }
                     run!(0 V0, 1 V1, 2 V2, 3 V3, 5 V5, 8 V8, 33 V33)
                 });
